@@ -334,6 +334,8 @@ def dir_obj(cls, persisting=True):
                _value=Const(None), _dir=S(Opt(PathK), 'dir'))
 
 
+FS_ERRORS = ['FileNotFoundError', 'FileExistsError', 'OSError', 'TypeError', 'ValueError', 'Opaque', 'AssertionError']
+
 CONTRACTS = []
 for _cls, _sfx in [('JSONData', 'json'), ('NumpyData', 'npy'), ('PandasData', 'pd'), ('FigureData', 'pickle'),
                    ('GeneratedData', 'jsonl'), ('GeneratedDataLazy', 'jsonl')]:
@@ -424,3 +426,7 @@ CONTRACTS += [
              inputs={'self': dir_obj('ContinuesData')}, requires=['tmp_complete'], ensures={'published': 'finished_cont'},
              crash_invariant={'visible_only_complete': 'ci_dir'}, l0=['A-fs'], searchable=False),
 ]
+
+for _c in CONTRACTS:
+    if not _c.ensures_raise and not _c.ensures_all and not _c.may_raise:
+        _c.may_raise = tuple(FS_ERRORS)       # environment / serialiser errors: what they leave behind is the crash invariant's business
